@@ -1,7 +1,9 @@
 // Key / value conversions and container-kind adapters shared by the C02 replayer and recorder.
 // The specification (spec/FiniteMap.tla) speaks of key ids and value ids; the adapters map them onto concrete keys
 // (monotonically, so that ascending ids are ascending keys for the ordered containers) chosen for hash collisions,
-// long common prefixes and integer extremes, and give the five container classes one calling convention.
+// long common prefixes and integer extremes, and give the five container classes one calling convention - including
+// (spec/FiniteMapExt.tla, MapBuild.tla) Enumerator objects in both forms (all() and what range-based for uses), the
+// foreach2 / range-based for loops, construction with a size argument and from key/value lists, writes through find().
 #ifndef C02_COMMON_H
 #define C02_COMMON_H
 #include <asl/Map.h>
@@ -127,6 +129,51 @@ struct KStr
 struct Entry { int k, v; };
 inline bool operator<(const Entry& a, const Entry& b) { return a.k < b.k; }
 
+
+// ---- enumerator objects (spec/FiniteMapExt.tla) -----------------------------------------------------
+// One calling convention for the explicit Enumerator objects of every container class.  Form A is the class's
+// all() enumerator, form B the enumerator that range-based for is built on (begin(container)).
+struct EnumIface
+{
+	virtual ~EnumIface() {}
+	virtual bool more() = 0;        // operator bool
+	virtual int key() = 0;          // ~e   (id of the key)
+	virtual int val() = 0;          // *e   (id of the value)
+	virtual void next() = 0;        // ++e
+	virtual void assign(int v) = 0; // *e = value
+};
+
+// key/value lists (FromList): the braced-list constructors need the length at compile time
+#define C02_LIST_CASES(MK) \
+	switch (es.size()) { \
+	case 0: return new C(std::initializer_list<typename Base::KeyVal>()); \
+	case 1: return new C({ MK(0) }); \
+	case 2: return new C({ MK(0), MK(1) }); \
+	case 3: return new C({ MK(0), MK(1), MK(2) }); \
+	case 4: return new C({ MK(0), MK(1), MK(2), MK(3) }); \
+	case 5: return new C({ MK(0), MK(1), MK(2), MK(3), MK(4) }); \
+	default: return 0; }
+
+template <class T>
+bool dicAssignList(Dic<T>& d, const std::vector<std::string>& ks, const std::vector<T>& vs)
+{
+	typedef typename Dic<T>::KV KV;
+	switch (ks.size())
+	{
+	case 0: d = std::initializer_list<KV>(); return true;
+	case 1: d = { KV{ ks[0].c_str(), vs[0] } }; return true;
+	case 2: d = { KV{ ks[0].c_str(), vs[0] }, KV{ ks[1].c_str(), vs[1] } }; return true;
+	case 3: d = { KV{ ks[0].c_str(), vs[0] }, KV{ ks[1].c_str(), vs[1] }, KV{ ks[2].c_str(), vs[2] } }; return true;
+	case 4: d = { KV{ ks[0].c_str(), vs[0] }, KV{ ks[1].c_str(), vs[1] }, KV{ ks[2].c_str(), vs[2] }, KV{ ks[3].c_str(), vs[3] } }; return true;
+	case 5: d = { KV{ ks[0].c_str(), vs[0] }, KV{ ks[1].c_str(), vs[1] }, KV{ ks[2].c_str(), vs[2] }, KV{ ks[3].c_str(), vs[3] }, KV{ ks[4].c_str(), vs[4] } }; return true;
+	}
+	return false;
+}
+template <class K, class T>
+bool dicAssignList(Map<K, T>&, const std::vector<std::string>&, const std::vector<T>&) { return false; }
+inline std::string keyText(const String& k) { return std::string(*k, k.length()); }
+inline std::string keyText(int) { return ""; }
+
 // ---- container kinds -------------------------------------------------------------------------------
 // Every kind offers: create(), put, index, remove, clear, cloneInto, dup, add, enumerate, has/find/get/cindex,
 // rc, and the two hazard predicates evaluated on the real object.
@@ -178,6 +225,69 @@ struct OrdKind
 	}
 	static void warm() { C m; const C& c = m; (void)c[KC::make(1)]; }
 	static bool shapeIs(const C&, int, const std::vector<int>&) { return true; }
+	// ---- wider surface (spec/FiniteMapExt.tla) ----
+	typedef Map<typename KC::T, typename VC::T> Base;
+	static C* createSized(int n) { C* m = new C(); m->reserve(n); return m; }
+	static const void* block(const C& m) { return (const void*)m.kv().data(); } // storage identity: handles sharing a block
+	// form 0: braced list, form 1: Map(k, v)(k, v)..., form 2: Dic: d = { {k, v}, ... } (else as form 0)
+	static C* fromListBraced(const std::vector<Entry>& es)
+	{
+#define C02_MK(i) typename Base::KeyVal(KC::make(es[i].k), VC::make(es[i].v))
+		C02_LIST_CASES(C02_MK)
+#undef C02_MK
+	}
+	static C* fromList(const std::vector<Entry>& es, int form)
+	{
+		if (form % 3 == 1 && es.size() >= 1)
+		{
+			C* m = new C(KC::make(es[0].k), VC::make(es[0].v));
+			for (size_t i = 1; i < es.size(); i++) (*m)(KC::make(es[i].k), VC::make(es[i].v));
+			return m;
+		}
+		if (form % 3 == 2)
+		{
+			std::vector<std::string> ks;
+			std::vector<typename VC::T> vs;
+			for (size_t i = 0; i < es.size(); i++) { ks.push_back(keyText(KC::make(es[i].k))); vs.push_back(VC::make(es[i].v)); }
+			C* m = new C();
+			m->set(KC::make(NKMAX), VC::make(3)); // the assignment replaces what the Dic held
+			if (dicAssignList(*m, ks, vs)) return m;
+			delete m;
+		}
+		return fromListBraced(es);
+	}
+	static bool poke(C& m, int k, int v) { typename VC::T* p = m.find(KC::make(k)); if (p) *p = VC::make(v); return p != 0; }
+	struct EnumA : EnumIface
+	{
+		typename C::Enumerator e;
+		EnumA(const C& m) : e(m.all()) {}
+		bool more() { return (bool)e; }
+		int key() { return KC::idOf(~e); }
+		int val() { return VC::idOf(*e); }
+		void next() { ++e; }
+		void assign(int v) { *e = VC::make(v); }
+	};
+	struct EnumB : EnumIface
+	{
+		typename Array<typename Base::KeyVal>::Enumerator e;
+		EnumB(const C& m) : e(begin(m)) {}
+		bool more() { return e != e; } // what range-based for asks
+		int key() { return KC::idOf((*e).key); }
+		int val() { return VC::idOf(e->value); }
+		void next() { ++e; }
+		void assign(int v) { (*e).value = VC::make(v); }
+	};
+	static EnumIface* openEnum(const C& m, int form) { if (form & 1) return new EnumB(m); return new EnumA(m); }
+	// the loop forms: foreach2 and range-based for
+	static void enumerate2(const C& m, std::vector<Entry>& out)
+	{
+		foreach2 (typename KC::T& k, const typename VC::T& v, m) { Entry x = { KC::idOf(k), VC::idOf(v) }; out.push_back(x); }
+	}
+	static void enumerate3(const C& m, std::vector<Entry>& out)
+	{
+		for (auto& e : m) { Entry x = { KC::idOf(e.key), VC::idOf(e.value) }; out.push_back(x); }
+	}
+	static bool truth(const C& m) { return (bool)(const void*)m && !!m; }
 };
 
 // hash containers: C = HashMap<K,T> or HashDic<T>; NB = initial table size argument (0: default constructor, 256 bins)
@@ -238,6 +348,47 @@ struct HashKind
 			if (i >= order.size() || KC::idOf(~e) != order[i]) return false;
 		return i == order.size();
 	}
+	// ---- wider surface (spec/FiniteMapExt.tla) ----
+	static C* createSized(int n) { return new C(n); }
+	static const void* block(const C& m) { return (const void*)m.a.data(); }
+	// no list constructor: a new container filled with set() / operator[] in the order of the list
+	static C* fromList(const std::vector<Entry>& es, int form)
+	{
+		C* m = create();
+		for (size_t i = 0; i < es.size(); i++) put(*m, es[i].k, es[i].v, (form & 1) != 0);
+		return m;
+	}
+	static bool poke(C& m, int k, int v) { typename VC::T* p = m.find(KC::make(k)); if (p) *p = VC::make(v); return p != 0; }
+	struct EnumA : EnumIface
+	{
+		typename C::Enumerator e;
+		EnumA(const C& m) : e(m.all()) {}
+		bool more() { return (bool)e; }
+		int key() { return KC::idOf(~e); }
+		int val() { return VC::idOf(*e); }
+		void next() { ++e; }
+		void assign(int v) { *e = VC::make(v); }
+	};
+	struct EnumB : EnumIface
+	{
+		typename C::FEnumerator e;
+		EnumB(const C& m) : e(begin(m)) {}
+		bool more() { return e != e; }
+		int key() { return KC::idOf((*e).key); }
+		int val() { return VC::idOf((*e).value); }
+		void next() { ++e; }
+		void assign(int v) { (*e).value = VC::make(v); }
+	};
+	static EnumIface* openEnum(const C& m, int form) { if (form & 1) return new EnumB(m); return new EnumA(m); }
+	static void enumerate2(const C& m, std::vector<Entry>& out)
+	{
+		foreach2 (typename KC::T& k, const typename VC::T& v, m) { Entry x = { KC::idOf(k), VC::idOf(v) }; out.push_back(x); }
+	}
+	static void enumerate3(const C& m, std::vector<Entry>& out)
+	{
+		for (auto& e : m) { Entry x = { KC::idOf(e.key), VC::idOf(e.value) }; out.push_back(x); }
+	}
+	static bool truth(const C& m) { return m.length() != 0; }
 };
 
 // sets: values are all 1
@@ -295,6 +446,66 @@ struct SetKind
 			if (i >= order.size() || KC::idOf(*e) != order[i]) return false;
 		return i == order.size();
 	}
+	// ---- wider surface (spec/FiniteMapExt.tla) ----
+	typedef typename KC_::T KT;
+	static C* createSized(int n) { return new C(n); }
+	static const void* block(const C& m) { return (const void*)m.a.data(); }
+	// form 0: braced list, form 1: Set(Array), form 2: Set(Array) from the array() of a braced-list set
+	static C* fromList(const std::vector<Entry>& es, int form)
+	{
+		if (form % 3 != 0)
+		{
+			Array<KT> a;
+			for (size_t i = 0; i < es.size(); i++) a << KC::make(es[i].k);
+			if (form % 3 == 1) return new C(a);
+			C t(a);
+			Array<KT> b = t; // operator Array<T>()
+			return new C(b);
+		}
+#define C02_MK(i) KC::make(es[i].k)
+		switch (es.size())
+		{
+		case 0: return new C(std::initializer_list<KT>());
+		case 1: return new C({ C02_MK(0) });
+		case 2: return new C({ C02_MK(0), C02_MK(1) });
+		case 3: return new C({ C02_MK(0), C02_MK(1), C02_MK(2) });
+		case 4: return new C({ C02_MK(0), C02_MK(1), C02_MK(2), C02_MK(3) });
+		case 5: return new C({ C02_MK(0), C02_MK(1), C02_MK(2), C02_MK(3), C02_MK(4) });
+		}
+#undef C02_MK
+		return 0;
+	}
+	static bool poke(C&, int, int) { return false; }
+	struct EnumA : EnumIface
+	{
+		typename C::Enumerator e;
+		EnumA(const C& m) : e(m.all()) {}
+		bool more() { return (bool)e; }
+		int key() { return KC::idOf(*e); }
+		int val() { return 1; }
+		void next() { ++e; }
+		void assign(int) {}
+	};
+	struct EnumB : EnumIface // the enumerator of the underlying map: key and the value 1
+	{
+		typename HashMap<KT, int>::Enumerator e;
+		EnumB(const C& m) : e(((const HashMap<KT, int>&)m).all()) {}
+		bool more() { return (bool)e; }
+		int key() { return KC::idOf(~e); }
+		int val() { return *e; }
+		void next() { ++e; }
+		void assign(int) {}
+	};
+	static EnumIface* openEnum(const C& m, int form) { if (form & 1) return new EnumB(m); return new EnumA(m); }
+	static void enumerate2(const C& m, std::vector<Entry>& out)
+	{
+		foreach (const KT& x, m) { Entry y = { KC::idOf(x), 1 }; out.push_back(y); }
+	}
+	static void enumerate3(const C& m, std::vector<Entry>& out)
+	{
+		for (auto& x : m) { Entry y = { KC::idOf(x), 1 }; out.push_back(y); }
+	}
+	static bool truth(const C& m) { return !m.empty(); }
 };
 
 #endif
